@@ -594,3 +594,42 @@ Proof.
     destruct (serve_round_balance _ _ _ _ R Hb) as (B1 & B2 & B3).
     destruct (IH _ _ _ S B1) as (B4 & B5). split; [exact B4|]. constructor; auto.
 Qed.
+
+(* ---------- sequence numbers of a session's requests ---------- *)
+Inductive request := RRead (w16 : bool) (addr n : N) | RWrite (w16 : bool) (addr n : N) (pl : list N).
+Definition do_request (p : regp) (r : request) : list N * regp :=
+  match r with RRead w a n => req_read p w a n | RWrite w a n pl => req_write p w a n pl end.
+Fixpoint do_requests (p : regp) (rs : list request) : list (list N) * regp :=
+  match rs with
+  | [] => ([], p)
+  | r :: t => let '(w, p1) := do_request p r in let '(ws, p2) := do_requests p1 t in (w :: ws, p2)
+  end.
+Definition with_seq (p : regp) (s : N) : regp :=
+  {| g_mem16 := g_mem16 p; g_serial := g_serial p; g_seq := s; g_blocksize := g_blocksize p |}.
+
+Lemma do_request_seq p r : snd (do_request p r) = with_seq p ((g_seq p + 1) mod 65536).
+Proof. destruct r; reflexivity. Qed.
+
+(* the k-th request of a session is the request sent with sequence number (start + k) mod 2^16 *)
+Theorem requests_sequence : forall rs p, g_seq p < 65536 ->
+  snd (do_requests p rs) = with_seq p ((g_seq p + N.of_nat (length rs)) mod 65536) /\
+  forall k r, nth_error rs k = Some r ->
+    nth_error (fst (do_requests p rs)) k = Some (fst (do_request (with_seq p ((g_seq p + N.of_nat k) mod 65536)) r)).
+Proof.
+  induction rs as [|r t IH]; intros p Hs.
+  - split.
+    + cbn. rewrite N.add_0_r, N.mod_small by exact Hs. destruct p; reflexivity.
+    + intros [|k] r H; discriminate.
+  - cbn [do_requests]. destruct (do_request p r) as [w p1] eqn:E1.
+    assert (P1 : p1 = with_seq p ((g_seq p + 1) mod 65536)) by (rewrite <- (do_request_seq p r), E1; reflexivity).
+    assert (Hs1 : g_seq p1 < 65536) by (rewrite P1; cbn; apply N.mod_lt; discriminate).
+    destruct (IH p1 Hs1) as [I1 I2]. destruct (do_requests p1 t) as [ws p2]. cbn [fst snd] in *.
+    split.
+    + rewrite I1, P1. unfold with_seq; cbn [g_seq g_mem16 g_serial g_blocksize length]. f_equal.
+      rewrite N.add_mod_idemp_l by discriminate. f_equal. lia.
+    + intros [|k] r' H; cbn [nth_error] in *.
+      * injection H as <-. rewrite N.add_0_r, N.mod_small by exact Hs.
+        replace (with_seq p (g_seq p)) with p by (destruct p; reflexivity). rewrite E1. reflexivity.
+      * rewrite (I2 k r' H), P1. unfold with_seq; cbn [g_seq g_mem16 g_serial g_blocksize]. do 3 f_equal.
+        rewrite N.add_mod_idemp_l by discriminate. f_equal. lia.
+Qed.
